@@ -374,6 +374,17 @@ func (p *c03) RunCase(i int) *core.CaseResult {
 		}
 		r.Outcomes = append(r.Outcomes, fmt.Sprintf("%d groups of %d rows", len(got), len(rows)))
 		if gq.SameSeq(got, ref.rows) {
+			// the clause functions the property is anchored in, called one after the other on the
+			// rows of the table, are Exec
+			if c.limit < 0 {
+				step, problem := c03Stepwise(map[string]any{"t": gq.Clone(rows)}, sql)
+				r.Execs++
+				if problem != "" {
+					r.Fail(p.sig(c, "clause-by-clause|problem"), fmt.Sprintf("%s on %s: %s", sql, gq.Render(rows), problem), cs)
+				} else if !gq.SameSeq(step, got) {
+					r.Fail(p.sig(c, "clause-by-clause"), fmt.Sprintf("%s on %s: ExecWhere, ExecGroupBy, ExecSelect called one after the other give %v, Exec gives %v", sql, gq.Render(rows), step, got), cs)
+				}
+			}
 			continue
 		}
 		mode := "wrong-values"
@@ -455,4 +466,55 @@ func (p *c03) Meta() core.Meta {
 		Bounds:     map[string]any{"queries": len(p.cases), "tables": len(p.tables), "map_order_tables": len(p.sub)},
 		Exhaustive: true,
 	}
+}
+
+
+// c03Stepwise evaluates a statement through the exported clause functions: WHERE row by row, then
+// GROUP BY (with HAVING), then the select list.
+func c03Stepwise(doc map[string]any, sql string) (rows []string, problem string) {
+	vrt.Run(gq.Seq, nil, func() {
+		defer func() {
+			if rec := recover(); rec != nil {
+				problem = fmt.Sprint("panic: ", rec)
+			}
+		}()
+		stmt, err := genql.Parse(sql)
+		if err != nil {
+			problem = "Parse: " + err.Error()
+			return
+		}
+		q, err := genql.Prepare(doc, stmt, &genql.Options{})
+		if err != nil {
+			problem = "Prepare: " + err.Error()
+			return
+		}
+		passed := []any{}
+		for _, row := range doc["t"].([]any) {
+			m, ok := row.(map[string]any)
+			if !ok {
+				problem = "row is not an object"
+				return
+			}
+			keep, err := genql.ExecWhere(q, m)
+			if err != nil {
+				problem = "ExecWhere: " + err.Error()
+				return
+			}
+			if keep {
+				passed = append(passed, row)
+			}
+		}
+		groups, err := genql.ExecGroupBy(q, passed)
+		if err != nil {
+			problem = "ExecGroupBy: " + err.Error()
+			return
+		}
+		out, err := genql.ExecSelect(q, groups)
+		if err != nil {
+			problem = "ExecSelect: " + err.Error()
+			return
+		}
+		rows = gq.RenderRows(out)
+	})
+	return
 }
